@@ -138,6 +138,25 @@ func VP_C13_Status() {
 	zzvp.Done()
 }
 
+// VP_C07_ResetStatus: a staging area re-installed from a commit (reset --mixed) equals that commit: nothing is staged, an empty
+// commit is refused — for name sets with siblings that sort between '<dir>' and '<dir>/'.
+func VP_C07_ResetStatus() {
+	vpInitRepo()
+	files := vpWorkFiles(2, zzvp.Param("depth", 2), zzvp.Param("complen", 2), 1)
+	for _, f := range files {
+		vpOK(zzvp.Run("add", f.path))
+	}
+	vpOK(zzvp.Run("commit", "-m", "base"))
+	tip, _, _ := vpBranch("main")
+	vpOK(zzvp.Run("reset", "--mixed", "HEAD@{0}"))
+	st := vpParseStatus(zzvp.Run("status").Out)
+	zzvp.Assert(len(st.staged) == 0, "after reset --mixed to HEAD nothing is listed as staged")
+	r := zzvp.Run("commit", "-m", "again")
+	t2, _, _ := vpBranch("main")
+	zzvp.Assert(r.Exit == 1 && string(t2) == string(tip), "a commit right after reset --mixed to HEAD is refused and moves no branch")
+	zzvp.Done()
+}
+
 // VP_C07_StatusStaged: the 'Changes to be committed' list and the refusal of an empty commit, at the CLI.
 func VP_C07_StatusStaged() {
 	vpInitRepo()
@@ -158,7 +177,10 @@ func VP_C07_StatusStaged() {
 	for i, f := range files {
 		switch zzvp.Choose(3) {
 		case 1:
-			nc := zzvp.Bytes("ed"+string(rune('0'+i)), 1, "")
+			nc := []byte{byte('a' + i)}
+			if i == 0 {
+				nc = zzvp.Bytes("ed0", 1, "") // free: may equal the committed bytes
+			}
 			zzvp.WriteFile(w+"/"+f.path, nc)
 			vpOK(zzvp.Run("add", f.path))
 			if string(nc) != string(f.content) {
